@@ -540,6 +540,51 @@ func writeReplay(cx *Ctx, dir, prop string, ur *UnitResult, r *OblResult) string
 // plus one that the rule matches at least one field (vacuity). Decided by go/types, reported under solver "go/types".
 func (cx *Ctx) structuralUnit(sd *Structural) *UnitResult {
 	ur := &UnitResult{Name: "structural " + sd.Name, Unit: cx.newUnit("structural " + sd.Name)}
+	if len(sd.NoMethods) > 0 {
+		// second form: named types that must not acquire certain methods (e.g. an interface a library gives meaning to)
+		matched := 0
+		var paths []string
+		for path := range cx.pkgs {
+			for _, pre := range sd.In {
+				if strings.HasPrefix(path, pre) {
+					paths = append(paths, path)
+					break
+				}
+			}
+		}
+		sort.Strings(paths)
+		for _, path := range paths {
+			pk := cx.pkgs[path]
+			if pk.Types == nil {
+				continue
+			}
+			for _, tname := range sd.Types {
+				tn, ok := pk.Types.Scope().Lookup(tname).(*types.TypeName)
+				if !ok {
+					continue
+				}
+				matched++
+				ms := types.NewMethodSet(types.NewPointer(tn.Type()))
+				for _, m := range sd.NoMethods {
+					pos := cx.fset.Position(tn.Pos())
+					o := &Obl{ID: fmt.Sprintf("structural:%s/%s.%s.no-%s", sd.Name, pk.Types.Name(), tname, m), Kind: "structural", Pos: pos,
+						Desc: fmt.Sprintf("type %s must not have a method %s", tname, m)}
+					r := &OblResult{Obl: o, Solver: "go/types", Status: "unsat"}
+					if sel := ms.Lookup(pk.Types, m); sel != nil {
+						r.Status = "sat"
+						r.Output = fmt.Sprintf("%s: type %s has method %s", cx.fset.Position(sel.Obj().Pos()), tname, m)
+					}
+					ur.Results = append(ur.Results, r)
+				}
+			}
+		}
+		cov := &OblResult{Obl: &Obl{ID: "structural:" + sd.Name + "/cover", Kind: "cover", Cover: true, Desc: "the rule matches at least one type"}, Solver: "go/types", Status: "sat"}
+		if matched == 0 {
+			cov.Status = "unsat"
+		}
+		ur.Results = append(ur.Results, cov)
+		return ur
+	}
 	fre, err := regexp.Compile(sd.Fields)
 	if err != nil {
 		ur.Err = "structural " + sd.Name + ": bad fields regexp: " + err.Error()
